@@ -71,6 +71,37 @@ pub fn bound(n: u64) -> u64 {
     24 + 16 * n.div_ceil(1024)
 }
 
+/// chain-weak: chains longer than the depth cap with Weak pointers to nodes around every
+/// multiple of 1024 (where the cascade re-defers) and elsewhere; once everything is destructed
+/// every upgrade must fail (C05).
+pub fn gen_weak(prop: &str, seed: u64) -> RunDesc {
+    let mut d = gen(prop, seed, false);
+    let mut rng = Rng::new(seed ^ 0x77EA);
+    let n = *rng.pick(&[1030u64, 1500, 2050, 2500, 3100, 4200]);
+    let mut pos: Vec<J> = Vec::new();
+    for k in 1..=(n / 1024) {
+        for dlt in [-2i64, -1, 0, 1, 2] {
+            let p = k as i64 * 1024 + dlt;
+            if p >= 0 && (p as u64) < n {
+                pos.push(J::Int(p));
+            }
+        }
+    }
+    for _ in 0..6 {
+        pos.push(J::Int(rng.below(n) as i64));
+    }
+    if let J::Obj(m) = &mut d.params {
+        m.insert("n".into(), J::Int(n as i64));
+        m.insert("shape".into(), J::Str("chain".into()));
+        m.insert("hold_at".into(), J::Int(-1));
+        m.insert("weak_positions".into(), J::Arr(pos));
+        m.insert("age_rounds".into(), J::Int(4 + rng.below(8) as i64));
+    }
+    d.family = "chain-weak".into();
+    d.cfg.step_cap = 2_000_000 + 60 * n;
+    d
+}
+
 pub fn gen(prop: &str, seed: u64, stack: bool) -> RunDesc {
     let mut rng = Rng::new(seed);
     let mut cfg = RunCfg::default();
@@ -161,7 +192,7 @@ fn node(id: u64, c0: Rc<CNode>, c1: Rc<CNode>, writer: u64) -> Rc<CNode> {
 }
 
 /// Build a structure of n nodes; returns (head, held interior node or null).
-fn build(shape: &str, n: u64, writer: u64, hold_at: i64) -> (Rc<CNode>, Rc<CNode>) {
+fn build(shape: &str, n: u64, writer: u64, hold_at: i64, weak_at: &[u64], weaks: &mut Vec<(u64, circ::Weak<CNode>)>) -> (Rc<CNode>, Rc<CNode>) {
     let mut held = Rc::null();
     match shape {
         "binary-tree" | "wide-tree" => {
@@ -198,6 +229,9 @@ fn build(shape: &str, n: u64, writer: u64, hold_at: i64) -> (Rc<CNode>, Rc<CNode
                 head = node(i, head, Rc::null(), writer);
                 if i as i64 == hold_at {
                     held = head.clone();
+                }
+                if weak_at.contains(&i) {
+                    weaks.push((i, head.downgrade()));
                 }
             }
             (head, held)
@@ -244,7 +278,7 @@ fn destroyer(desc: &RunDesc, out: &mut Vec<(String, String)>, fam: &mut J) {
     // C07 reference: the stack a 2048-node chain needs (reaches the depth cap)
     let mut ref_span = 0usize;
     if stack_check {
-        let (h, _) = build("chain", 2048, 1, -1);
+        let (h, _) = build("chain", 2048, 1, -1, &[], &mut Vec::new());
         for _ in 0..5 {
             round();
         }
@@ -260,7 +294,9 @@ fn destroyer(desc: &RunDesc, out: &mut Vec<(String, String)>, fam: &mut J) {
         MAX_DEPTH_SEEN.store(0, Relaxed);
     }
     user_yield();
-    let (head, held) = build(&shape, n, writer, hold_at);
+    let weak_at: Vec<u64> = p.geta("weak_positions").iter().filter_map(|x| x.as_u64()).collect();
+    let mut weaks: Vec<(u64, circ::Weak<CNode>)> = Vec::new();
+    let (head, held) = build(&shape, n, writer, hold_at, &weak_at, &mut weaks);
     let total = CREATED.load(Relaxed);
     for _ in 0..p.getu("age_rounds") {
         round();
@@ -305,6 +341,20 @@ fn destroyer(desc: &RunDesc, out: &mut Vec<(String, String)>, fam: &mut J) {
             soft("latency-exceeds-bound", format!("{} of {} nodes ({}, links by {}, aged {} rounds) needed {} epoch advances after the head was released (bound {})", shape, total, shape, p.gets("link_writer"), p.getu("age_rounds"), adv, bound(total)));
         }
     }
+    for _ in 0..6 {
+        round();
+    }
+    // C05: every node has been destructed, so no weak pointer may upgrade any more
+    if DROPS.load(Relaxed) == total {
+        for (pos, w) in &weaks {
+            if let Some(rc) = w.upgrade() {
+                soft("upgrade-after-destruct/chain-node", format!("Weak::upgrade succeeded on chain node {} (of {}) after its destructor ran; the cascade re-defers at multiples of 1024", pos, total));
+                std::mem::forget(rc);
+            }
+        }
+        fam.put("weak_upgrades_checked", weaks.len());
+    }
+    drop(weaks);
     for _ in 0..6 {
         round();
     }
@@ -380,7 +430,7 @@ pub fn run(desc: &RunDesc) -> ! {
     let attributed: Vec<(String, String, String)> = softs
         .iter()
         .map(|(s, d)| {
-            let p = if s.starts_with("stack") || s.starts_with("recursion") { "C07" } else if s.starts_with("latency") || s.starts_with("held") || s.starts_with("C06") { "C06" } else { prop.as_str() };
+            let p = if s.starts_with("upgrade") { "C05" } else if s.starts_with("stack") || s.starts_with("recursion") { "C07" } else if s.starts_with("latency") || s.starts_with("held") || s.starts_with("C06") { "C06" } else { prop.as_str() };
             (p.to_string(), format!("{}/{}", p, s), d.clone())
         })
         .collect();
